@@ -72,7 +72,7 @@ func genericRun(sp stagePlan) func(rep *Report, def *propDef) {
 		failFast := func() bool { return os.Getenv("VERIF_FAILFAST") != "" && len(rep.Findings) > 0 }
 		for i, cp := range sp.covers {
 			cats := cp.cats(rep.Seed*7919+int64(i), rep.Tier)
-			st, err := coverStage(cp.name, cats, cp.bounds, budget, 4, rep.Tier == "thorough" && i == 0)
+			st, err := coverStage(cp.name, cats, cp.bounds, budget, 24, rep.Tier == "thorough" && i == 0)
 			rep.takeCover(def, st, cats, err)
 			if failFast() {
 				return
@@ -85,7 +85,7 @@ func genericRun(sp stagePlan) func(rep *Report, def *propDef) {
 				}
 				cfg := TraceSpecCfg{Name: tp.name, Seed: rep.Seed*104729 + int64(i), Containers: tp.n, Features: tp.features,
 					Driver: run.DriverOpts{MaxOps: tp.ops, PFault: tp.pfault, PInvoke: 0.3}, Opts: tp.opts, Variants: tp.variants}
-				st, err := traceStage(cfg, budget, 4)
+				st, err := traceStage(cfg, budget, 12)
 				rep.takeTrace(def, st, cfg, err)
 			}
 		}
@@ -100,7 +100,7 @@ func genericRun(sp stagePlan) func(rep *Report, def *propDef) {
 			return
 		}
 		if sp.repo {
-			st, rs, err := repoTraceStage(budget, 4)
+			st, rs, err := repoTraceStage(budget, 12)
 			rep.takeRepoTrace(def, st, rs, err)
 		}
 		if sp.extra != nil {
